@@ -169,11 +169,13 @@ structure Dev where
   po : List (Nat × Nat × Int) := []
   pi : List (Nat × Nat × Int) := []
   ba : List (Nat × Nat × Int) := []
+  /-- `M,g,k,m,p`: multiply the payload by `m` modulo `p` -/
+  bm : List (Nat × Nat × Int × Int) := []
   bd : List (Nat × Nat) := []
   bi : List (Nat × Nat × Int) := []
 
 def Dev.honest (d : Dev) : Bool :=
-  !d.sfb && d.silent.isNone && d.po.isEmpty && d.pi.isEmpty && d.ba.isEmpty && d.bd.isEmpty && d.bi.isEmpty
+  !d.sfb && d.silent.isNone && d.po.isEmpty && d.pi.isEmpty && d.ba.isEmpty && d.bm.isEmpty && d.bd.isEmpty && d.bi.isEmpty
 
 def lookup2 (l : List (Nat × Nat × Int)) (j k : Nat) : Int :=
   match l.reverse.find? (fun e => e.1 == j && e.2.1 == k) with
@@ -203,7 +205,11 @@ def applyOp (n : Nat) (d : Dev) (fs : FState) (op : Op) : FState × List (Tag ×
     | .bc tag v =>
       let g := fs.seg
       let k := fs.off
-      let main : List (Tag × Int) := if d.bd.contains (g, k) then [] else [(tag, v + lookup2 d.ba g k)]
+      let v1 := v + lookup2 d.ba g k
+      let v2 := match d.bm.reverse.find? (fun e => e.1 == g && e.2.1 == k) with
+        | some e => v1 * e.2.2.1 % e.2.2.2
+        | none => v1
+      let main : List (Tag × Int) := if d.bd.contains (g, k) then [] else [(tag, v2)]
       let ins : List (Tag × Int) := (d.bi.filter (fun e => e.1 == g && e.2.1 == k)).map (fun e => (tag, e.2.2))
       let fs' := if v = (n : Int) then { fs with ops := fs.ops + 1, seg := g + 1, off := 0 }
                  else { fs with ops := fs.ops + 1, off := k + 1 }
